@@ -11,7 +11,7 @@ import re, z3
 from .. import clihooks, clireplay, clistatus, common
 from ..mirsym import Lazy, Agg, Ref, RefV, Sym, derives_from, vkey, UNIT
 from ..session import find_calls
-from ..summaries import canon
+from ..summaries import canon, deref_val
 from ..common import Inconclusive
 from . import c14
 
@@ -38,11 +38,14 @@ SCENARIOS.update({
                          lambda r: ("exit status is %d, not 2, for a file that cannot be read as UTF-8" % r["rc"] if r["rc"] != 2 else None)),
     "check-unreadable-and-diff": ({"u.lua": clireplay.UNFORMATTED, "bin.lua": b"\xff\xfe local x = 1\n"}, ["--check", "u.lua", "bin.lua"],
                                   lambda r: ("exit status is %d, not 2" % r["rc"] if r["rc"] != 2 else None)),
+    "check-verify-failure": ({"r.lua": 'local b = require("b")\nlocal a = require("a")\n'}, ["--check", "--verify", "--sort-requires", "r.lua"],
+                             lambda r: ("exit status is %d, not 2, although output verification failed" % r["rc"] if r["rc"] != 2 else
+                                        "file changed under --check" if clireplay.changed(r, "r.lua") else None)),
     "write-broken": ({"bad.lua": clireplay.BROKEN}, ["bad.lua"],
                      lambda r: ("exit status is %d, not 2, for an unparseable file" % r["rc"] if r["rc"] != 2 else None)),
 })
 KIND2SCEN = dict(c14.KIND2SCEN)
-KIND2SCEN.update({"status-err": ["check-broken", "check-broken-and-diff", "check-missing", "write-broken", "check-unreadable", "check-unreadable-and-diff"],
+KIND2SCEN.update({"status-err": ["check-verify-failure", "check-broken", "check-broken-and-diff", "check-missing", "write-broken", "check-unreadable", "check-unreadable-and-diff"],
                   "status-diff": ["check-diff", "check-broken-and-diff"], "status-clean": ["check-clean"],
                   "diff-iff": ["check-diff", "check-clean"],
                   "any": list(SCENARIOS)})
@@ -212,6 +215,42 @@ def diff_iff(ses, rep, funcs):
     return flagged
 
 
+def error_propagation(ses, rep):
+    """format_file / format_string: a failure of format_code is returned as Err (status 2), never swallowed: on every path that returns Ok,
+    every format_code result is Ok; format_code is called at most once and with the caller's verification mode"""
+    flagged = []
+    for caller in ("format_file", "format_string"):
+        ex = ses.executor("bin", "default", hooks=c14.HOOKS, inline=lambda n_, f: False)
+        fn = ses.need(ex, caller)
+        args = [RefV(ex.fresh_lazy(t.lstrip("&"), p)) if t.startswith("&") else ex.fresh_lazy(t, p) for p, t in fn.params]
+        vi = [i for i, (p, t) in enumerate(fn.params) if "OutputVerification" in t]
+        n = 0
+        for pi, o in enumerate(ex.run(fn, args)):
+            if o.kind != "return":
+                continue
+            v = o.value
+            fcs = find_calls(o.trace, lambda n_: n_.split("::")[-1] == "format_code")
+            if not fcs:
+                continue
+            n += 1
+            is_ok = isinstance(v, Agg) and v.variant == "Ok"
+            oid = f"{caller}/path{pi}/format_code"
+            if is_ok:
+                failed = z3.Or(*[ex.discr(o.state, c[2]) != 0 for c in fcs])
+                r, m = ses.obligation(oid + "-error-is-returned", list(o.pc), failed, "Ok is returned only if format_code returned Ok")
+                if r == "sat":
+                    flagged.append((oid + "-error-is-returned", f"{caller} returns Ok although format_code failed (the failure is not reported with status 2)", "status-err", []))
+            bad_once = len(fcs) != 1
+            bad_mode = bool(vi) and any(deref_val(ex, o.state, c[1][3]) is not args[vi[0]] for c in fcs if len(c[1]) > 3)
+            r, m = ses.obligation(oid + "-once-with-the-callers-verification-mode", list(o.pc), z3.BoolVal(bad_once or bad_mode),
+                                  "one format_code call, verify_output passed through")
+            if r == "sat":
+                flagged.append((oid + "-once", f"{caller} calls format_code {len(fcs)} times / with a different verification mode", "status-err", []))
+        if n == 0:
+            raise Inconclusive(f"{caller}: no path calls format_code")
+    return flagged
+
+
 def run(ses, rep):
     rep.assumptions += [
         "log!(Level::Error, ..) reaches the closure registered in main (env_logger with filter >= Warn; STATIC_MAX_LEVEL = Trace)",
@@ -242,6 +281,7 @@ def run(ses, rep):
     flagged += status_step(ses, rep, funcs)
     flagged += tail(ses, rep, funcs)
     flagged += diff_iff(ses, rep, funcs)
+    flagged += error_propagation(ses, rep)
     c14.confirm(rep, flagged, SCENARIOS, KIND2SCEN, "C13")
 
 
